@@ -159,7 +159,7 @@ def note_denominator(t):
         return
     k = t.get_id()
     if k not in ST.denom_keys:
-        ST.denom_keys.add(k); ST.denoms.append(t)
+        ST.denom_keys.add(k); ST.denoms.append(t)      # t stays referenced by the list, so its id is not reused
 def inv(a, _t=True):
     a = lift(a)
     if not a.n: raise ZeroDivisionError('exact division by zero')
@@ -263,7 +263,8 @@ def _nonneg(t):
 def _canon_sqrt(P):
     """returns (outside z3 term >= 0, [radicand z3 terms]) with sqrt(P) == outside * prod sqrt(radicand_i), or None"""
     key = P.get_id()
-    if key in _sym_cache: return _sym_cache[key]
+    hit = _sym_cache.get(key)
+    if hit is not None and z3.eq(hit[0], P): return hit[1]     # (the AST is kept alive in the cache: ids of freed ASTs are reused)
     res = None
     try:
         import sympy
@@ -307,7 +308,7 @@ def _canon_sqrt(P):
     except BaseException as ex:
         if not isinstance(ex, (Exception, _Timeout)): raise
         res = None
-    _sym_cache[key] = res
+    _sym_cache[key] = (P, res)
     return res
 
 def _unify_sqrt(P):
@@ -374,7 +375,13 @@ def _trans(kind, args):
                     if kd2 == 'acos' and k2 != name:
                         s_ = z3.Solver(); s_.set('timeout', 3000); s_.add(gen_constraints()); s_.add(ar2[0].expr() + u != 0); ST.unify_queries += 1
                         if s_.check() == z3.unsat: ST.axioms.append(v + v2 == PI)
-            elif kind == 'sin' or kind == 'cos': ST.axioms.append(z3.And(v >= -1, v <= 1))
+            elif kind == 'sin' or kind == 'cos':
+                ST.axioms.append(z3.And(v >= -1, v <= 1))
+                other = 'cos' if kind == 'sin' else 'sin'
+                for k2, (kd2, ar2, v2) in ST.trans.items():
+                    if kd2 == other and k2 != name:
+                        s_ = z3.Solver(); s_.set('timeout', 3000); s_.add(gen_constraints()); s_.add(ar2[0].expr() != u); ST.unify_queries += 1
+                        if s_.check() == z3.unsat: ST.axioms.append(v * v + v2 * v2 == 1)
             elif kind == 'atan2': ST.axioms.append(z3.And(v > -PI, v < PI))     # branch cut excluded
             elif kind == 'log': ST.axioms.append(z3.Implies(u == 1, v == 0))
         ST.trans_by_key[key] = name
@@ -445,9 +452,15 @@ def cos(a):
         sv = sin(a.notan()); r.tan = {k: neg(mul(v_, sv, False), False) for k, v_ in a.tan.items()}
     return r
 def _as_trans(a):
-    """if a is exactly one transcendental symbol, return (kind, args)"""
-    if len(a.n) == 1 and E in a.n and isone(a.d):
+    """if a is exactly one transcendental symbol (possibly after simplification, e.g. (180/pi)*(pi/180)*t), return (kind, args)"""
+    if len(a.n) == 1 and E in a.n:
         c = a.n[E]
+        if not (isone(a.d) and z3.is_const(c)): c = z3.simplify(a.expr())
+        if z3.is_app_of(c, z3.Z3_OP_MUL) and c.num_args() == 2 and z3.is_rational_value(c.arg(0)):
+            # unit-conversion constants: (180/PI) and (PI/180) are folded to doubles whose product is 1 up to 1e-16;
+            # they are taken as exact inverses (assumption stated in the evidence)
+            f = Fraction(c.arg(0).numerator_as_long(), c.arg(0).denominator_as_long())
+            if abs(f - 1) < Fraction(1, 10**12): c = c.arg(1)
         if z3.is_const(c) and c.decl().kind() == z3.Z3_OP_UNINTERPRETED:
             ent = ST.trans.get(c.decl().name())
             if ent: return ent
